@@ -43,10 +43,24 @@ type adShape struct {
 	isRm    bool
 	ep      int // 0 absent, 1 present with 0 providers, 2 with 1, 3 with 2
 	ovr     bool
+	// nilLists: lists and byte strings of length zero are nil instead of
+	// empty (addresses, context ID, metadata, the provider list)
+	nilLists bool
 }
 
 func (s adShape) String() string {
-	return fmt.Sprintf("prev=%v,ent=%d,addrs=%d,ctx=%d,md=%d,sig=%v,rm=%v,ep=%d,ovr=%v", s.prev, s.entries, s.nAddrs, s.ctxLen, s.mdLen, s.sig, s.isRm, s.ep, s.ovr)
+	k := fmt.Sprintf("prev=%v,ent=%d,addrs=%d,ctx=%d,md=%d,sig=%v,rm=%v,ep=%d,ovr=%v", s.prev, s.entries, s.nAddrs, s.ctxLen, s.mdLen, s.sig, s.isRm, s.ep, s.ovr)
+	if s.nilLists {
+		k += ",zero-length-as-nil"
+	}
+	return k
+}
+
+func clip(b []byte) string {
+	if len(b) > 300 {
+		return string(b[:300]) + "..."
+	}
+	return string(b)
 }
 
 func buildAd(s adShape) schema.Advertisement {
@@ -65,6 +79,17 @@ func buildAd(s adShape) schema.Advertisement {
 	ad.Addresses = append([]string{}, []string{"/ip4/1.2.3.4/tcp/1", "/dns4/é.example/tcp/443/https"}[:s.nAddrs]...)
 	ad.ContextID = fixture.Bytes(s.ctxLen, 1)
 	ad.Metadata = fixture.Bytes(s.mdLen, 2)
+	if s.nilLists {
+		if s.nAddrs == 0 {
+			ad.Addresses = nil
+		}
+		if s.ctxLen == 0 {
+			ad.ContextID = nil
+		}
+		if s.mdLen == 0 {
+			ad.Metadata = nil
+		}
+	}
 	if s.sig {
 		ad.Signature = fixture.Bytes(70, 3)
 	} else {
@@ -150,7 +175,7 @@ type corpusItem struct {
 
 func TestCheck(t *testing.T) {
 	r := vp.New("C13", "exploration",
-		"advertisements: product of {previous link} x {entries: NoEntries, dag-json link, dag-cbor link} x {0..2 addresses} x {context ID 0/1/64} x {metadata 0/1/1024} x {signature empty/non-empty} x {IsRm} x {extended providers absent / present with 0,1,2 providers} x {override}; entry chunks: 0..3 multihashes of mixed hash functions x {next link}; both codecs; store twice through Linkproto; load with typed and with generic prototype. Decoder: for each corpus block every single-byte substitution, every truncation, CBOR header tokens / JSON structural tokens at every offset, all byte strings of length <=2, for both decoders and both codecs and for the generic-node unwrap path. Non-trivial: values with at least one optional part or list element; decoder inputs other than the corpus itself.",
+		"advertisements: product of {previous link} x {entries: NoEntries, dag-json link, dag-cbor link} x {0..2 addresses} x {context ID 0/1/64} x {metadata 0/1/1024} x {signature empty/non-empty} x {IsRm} x {extended providers absent / present with 0,1,2 providers} x {override} x {zero-length lists and byte strings empty / nil}; what is decoded must encode to the bytes it was decoded from, and a loaded value stored again must give the same CID; entry chunks: 0..3 multihashes of mixed hash functions x {next link}; both codecs; store twice through Linkproto; load with typed and with generic prototype. Decoder: for each corpus block every single-byte substitution, every truncation, CBOR header tokens / JSON structural tokens at every offset, all byte strings of length <=2, for both decoders and both codecs and for the generic-node unwrap path. Non-trivial: values with at least one optional part or list element; decoder inputs other than the corpus itself.",
 		"equality is semantic: nil and empty are the same for non-optional lists and byte strings; optional parts must keep absent-vs-present",
 		"decoder inputs are within one token of a valid block or at most 2 bytes long",
 	)
@@ -176,7 +201,10 @@ func TestCheck(t *testing.T) {
 										if ep == 0 && ovr {
 											continue
 										}
-										shapes = append(shapes, adShape{prev, ent, na, cl, ml, sig, rm, ep, ovr})
+										shapes = append(shapes, adShape{prev, ent, na, cl, ml, sig, rm, ep, ovr, false})
+										if na == 0 || cl == 0 || ml == 0 {
+											shapes = append(shapes, adShape{prev, ent, na, cl, ml, sig, rm, ep, ovr, true})
+										}
 									}
 								}
 							}
@@ -232,6 +260,16 @@ func TestCheck(t *testing.T) {
 				r.Violation(fmt.Sprintf("ad:roundtrip-differs:codec=%x", codec), key, fmt.Sprintf("decode(encode(ad)) differs:\n got  %s\n want %s", got, want), nil)
 				continue
 			}
+			// equal also at the level of the data model: what was decoded
+			// encodes to the bytes it was decoded from (a part that went from
+			// present to absent, or from empty to missing, shows here)
+			if node3, err := back.ToNode(); err != nil {
+				r.Violation(fmt.Sprintf("ad:decoded-value-not-encodable:codec=%x", codec), key, err.Error(), nil)
+				continue
+			} else if data3, err := encode(node3, codec); err != nil || !bytes.Equal(data3, data) {
+				r.Violation(fmt.Sprintf("ad:decoded-value-encodes-differently:codec=%x", codec), key, fmt.Sprintf("encode(decode(encode(ad))) differs from encode(ad) (err %v):\n first  %q\n second %q", err, clip(data), clip(data3)), nil)
+				continue
+			}
 			r.Outcome("ad-roundtrip")
 		}
 		if !mine {
@@ -274,6 +312,18 @@ func TestCheck(t *testing.T) {
 		}
 		if adCanon(ga) != want || adCanon(ta) != want {
 			r.Violation("ad:generic-vs-typed-differs", key, fmt.Sprintf("generic %s\n typed %s\n want %s", adCanon(ga), adCanon(ta), want), nil)
+		}
+		// what was loaded, stored again, is the same block
+		for which, la := range map[string]*schema.Advertisement{"generic": ga, "typed": ta} {
+			n3, err := la.ToNode()
+			if err != nil {
+				r.Violation("ad:loaded-value-not-encodable:"+which, key, err.Error(), nil)
+				continue
+			}
+			l3, err := lsys.Store(ipld.LinkContext{}, schema.Linkproto, n3)
+			if err != nil || !l3.(cidlink.Link).Cid.Equals(c1) {
+				r.Violation("ad:cid-changes-after-load-and-store:"+which, key, fmt.Sprintf("stored %s, loaded it (%s prototype), stored the loaded value: %v (err %v)", c1, which, l3, err), nil)
+			}
 		}
 		if s.ep == 3 && s.prev {
 			r.Sample(map[string]any{"advertisement": s.String(), "cid": c1.String()})
